@@ -73,6 +73,17 @@ impl<'q> QueuedIter<'q> {
     pub fn clone(&self) -> (r: QueuedIter<'q>) ensures r.rest() == self.rest() { unimplemented!() }
     #[verifier::external_body]
     pub fn copied(self) -> (r: QueuedIterCopied<'q>) ensures r.rest() == self.rest() { unimplemented!() }
+    /// Iterator::any called on the iterator ITSELF (not on a clone): ASSUMED std meaning - elements are
+    /// consumed up to and including the first one the (pure) predicate accepts, all of them if none
+    #[verifier::external_body]
+    pub fn any<F: Fn(Queued) -> bool>(&mut self, f: F) -> (r: bool)
+        requires forall|x: Queued| f.requires((x,)),
+        ensures exists|d: Seq<bool>| #![trigger d.len()] d.len() == old(self).rest().len()
+            && (forall|i: int| #![trigger d[i]] #![trigger old(self).rest()[i]] 0 <= i < d.len() ==> f.ensures((old(self).rest()[i],), d[i]))
+            && r == (exists|i: int| 0 <= i < d.len() && #[trigger] d[i])
+            && (!r ==> final(self).rest().len() == 0)
+            && (r ==> exists|k: int| 0 <= k < d.len() && #[trigger] d[k] && (forall|m: int| 0 <= m < k ==> !#[trigger] d[m]) && final(self).rest() == old(self).rest().subrange(k + 1, d.len() as int)),
+    { unimplemented!() }
 }
 impl<'q> QueuedIterCopied<'q> {
     pub uninterp spec fn rest(&self) -> Seq<Queued>;
@@ -139,7 +150,7 @@ fn release_keys_closure(keys: &[OsCode], mut queued: QueuedIter) -> (Option<Wait
 //@@ before-re 1 /if q\.event\(\)\.is_press\(\) \{/
     let ghost p = q0.len() - queued.rest().len() - 1;
     proof { assert(q0[p] == *q); }
-//@@ after-re 1 /if queued\.clone\(\)\.copied\(\)\.any\([^;]*?\}\) \{/
+//@@ after-re 1 /if queued(?:\.clone\(\))?(?:\.copied\(\))?\.any\([^;]*?\}\) \{/
     proof {
         let rest = queued.rest();
         assert(exists|idx: int| 0 <= idx < rest.len() && (#[trigger] rest[idx]).event == target);
@@ -147,7 +158,7 @@ fn release_keys_closure(keys: &[OsCode], mut queued: QueuedIter) -> (Option<Wait
         assert(q0[p + 1 + idx] == rest[idx]);
         assert(released_later(q0, p));
     }
-//@@ after-re 1 /if queued\.clone\(\)\.copied\(\)\.any\([^;]*?\}\) \{[^}]*\}/
+//@@ after-re 1 /if queued(?:\.clone\(\))?(?:\.copied\(\))?\.any\([^;]*?\}\) \{[^}]*\}/
     proof {
         let rest = queued.rest();
         assert(forall|jj: int| p < jj < q0.len() ==> (#[trigger] q0[jj]) == rest[jj - p - 1]);
